@@ -4,6 +4,7 @@ package main
 
 import (
 	"fmt"
+	"strconv"
 	"strings"
 
 	"verif/sim/simrt"
@@ -14,12 +15,12 @@ import (
 // generation PRNG before the world starts; the result is stored in the plan.
 
 type gen struct {
-	r       *simrt.Rand
-	tag     string
-	n       int
-	kfCross bool
+	r          *simrt.Rand
+	tag        string
+	n          int
+	kfCross    bool
 	prevCallID string
-	tagPool []string // user agents that use the same tag for every call (a tag is unique only within a Call-ID)
+	tagPool    []string // user agents that use the same tag for every call (a tag is unique only within a Call-ID)
 }
 
 func newGen(seed uint64) *gen {
@@ -289,8 +290,8 @@ func (g *gen) fromTo(uri string, tag string, decorate bool) string {
 		s += ";tag=" + tag
 	}
 	if decorate && g.chance(30) {
-		s += ";" + g.alnum(1, 5) + "=" + g.alnum(1, 5)
-		if g.chance(30) {
+		s += ";" + g.alnum(1, 5) + "=" + g.paramValue()
+		if g.chance(30) && !strings.HasSuffix(s, "\"") {
 			s += "%" + g.alnum(1, 3)
 		}
 	}
@@ -298,6 +299,39 @@ func (g *gen) fromTo(uri string, tag string, decorate bool) string {
 		s += ";" + g.alnum(1, 5)
 	}
 	return s
+}
+
+// paramValue draws the value of a generic parameter: a token; now and then a quoted string or a padded base64 text, both
+// with '=' inside (the parameter ends at the next ';', its name at the FIRST '=').
+func (g *gen) paramValue() string {
+	switch g.intn(10) {
+	case 0:
+		return "\"" + g.alnum(1, 4) + "=" + g.alnum(1, 4) + "\""
+	case 1:
+		return g.alnum(2, 8) + g.pick("=", "==")
+	}
+	return g.alnum(1, 6)
+}
+
+// reason draws a reason phrase; some repeat text that occurs earlier in the status line.
+func (g *gen) reason(status int) string {
+	switch g.intn(14) {
+	case 0:
+		return "SIP Version Not Supported"
+	case 1:
+		return "IP Address Not Allowed"
+	case 2:
+		return strconv.Itoa(status/100) + " Devices Unreachable"
+	case 3:
+		return strconv.Itoa(status)
+	case 4:
+		return "2.0 Is All We Speak"
+	case 5:
+		return "R\xc3\xa9ponse 100% d'accord"
+	case 6:
+		return "SIP/2.0 " + strconv.Itoa(status) + " Again"
+	}
+	return g.pick("OK", "Ringing", "Not Found", "Busy Here", "Session Progress", "Whatever it is")
 }
 
 func (g *gen) tagValue() string {
@@ -352,12 +386,13 @@ type msgParts struct {
 	Ext     []sipwire.Header
 	Body    []byte
 	CLName  string
+	CLZeros int
 	EOL     string
 	Shuffle bool
 }
 
 func (g *gen) assemble(p *msgParts) []byte {
-	b := &sipwire.Builder{Start: p.Start, Body: p.Body, CLName: p.CLName, EOL: p.EOL}
+	b := &sipwire.Builder{Start: p.Start, Body: p.Body, CLName: p.CLName, CLZeros: p.CLZeros, EOL: p.EOL}
 	groups := [][]sipwire.Header{p.Via, p.Route, p.RR, p.Core}
 	if p.Shuffle {
 		// keep each group's internal order, interleave groups and ext headers
@@ -383,6 +418,9 @@ func (g *gen) assemble(p *msgParts) []byte {
 			b.Headers = append(b.Headers, grp...)
 		}
 		b.Headers = append(b.Headers, p.Ext...)
+	}
+	if g.chance(30) && len(b.Headers) > 0 {
+		b.CLAt = 1 + g.intn(len(b.Headers)) // Content-Length need not be the last header field
 	}
 	return b.Bytes()
 }
